@@ -492,6 +492,9 @@ def bounded_refute(text: str, scale: int = 1, bound: int = 6) -> str | None:
             for k in range(0, bound + 1):
                 s.add(z3.Implies(z3.And(od[k], *[z3.Not(x) for x in od[:k]]), app == k))
             s.add(z3.Implies(z3.And(*[z3.Not(x) for x in od]), app == -1))
+        elif nm == "tl":
+            (s_,) = app.children()
+            s.add(z3.Implies(z3.Length(s_) >= 1, app == z3.SubSeq(s_, 1, z3.Length(s_) - 1)))
         elif nm == "flat":
             (s_,) = app.children()
             el = s_.sort().basis()
@@ -516,7 +519,7 @@ def bounded_refute(text: str, scale: int = 1, bound: int = 6) -> str | None:
                 s.add(z3.Implies(inrange, app == z3.If(LP == 0, z3.SubSeq(s_, c_, LS - c_),
                                                        z3.If(occ_c, z3.SubSeq(s_, c_ + LP, LS - c_ - LP), z3.SubSeq(s_, rkv, LS - rkv)))))
     m = None
-    seeded = False
+    seeded = 0
     base = list(s.assertions())  # master list; `s` itself is never checked (see fresh_solver)
 
     def fresh_solver(extra=()):
@@ -533,9 +536,9 @@ def bounded_refute(text: str, scale: int = 1, bound: int = 6) -> str | None:
     for _round in range(40):
         cur = fresh_solver()
         r_ = cur.check()
-        if r_ == z3.unknown and not seeded:
+        if r_ == z3.unknown and seeded < 4:
             # z3's sequence solver is incomplete on nested sequences: let cvc5 propose values for the constants, z3 re-checks
-            seeded = True
+            seeded += 1
             seed = _cvc5_seed(fresh_solver(), scale)
             if dbg:
                 print("bounded: round", _round, "z3 unknown; cvc5 seed", None if seed is None else len(seed), file=sys.stderr)
